@@ -227,7 +227,18 @@ func (w *bWorld) build(f *bFunc) interface{} {
 			if !f.Fail {
 				w.fired++
 			}
-			return []reflect.Value{reflect.Zero(f.retType()), reflect.ValueOf(hostErrors[(f.RetSeed+calls+1000)%len(hostErrors)]).Convert(rtErr)}
+			herr := hostErrors[(f.RetSeed+calls+1000)%(len(hostErrors)+2)%len(hostErrors)]
+			if k := (f.RetSeed + calls + 1000) % (len(hostErrors) + 2); k >= len(hostErrors) {
+				// the host hands back, as it is or wrapped, the error of an evaluation it made itself on
+				// another runner, in which another host call failed: an error of the library's own making
+				if ie := innerCallError(); ie != nil {
+					herr = ie
+					if k > len(hostErrors) {
+						herr = &wrappedErr{"rule", ie}
+					}
+				}
+			}
+			return []reflect.Value{reflect.Zero(f.retType()), reflect.ValueOf(herr).Convert(rtErr)}
 		}
 		if f.Reenter {
 			// evaluate a failing formula on the same runner under a derived context, ignore its error
@@ -244,6 +255,18 @@ func (w *bWorld) build(f *bFunc) interface{} {
 		return []reflect.Value{rv, zeroErr}
 	})
 	return fv.Interface()
+}
+
+// innerCallError: what the library returns when a host function called from a formula fails.
+func innerCallError() error {
+	src, perr := formula.ParseSourceCode([]byte("zzinner(1)"))
+	if perr != nil {
+		return nil
+	}
+	r := formula.NewRunner()
+	r.SetThis(map[string]interface{}{"zzinner": func(x int) (int, error) { return 0, errors.New("no such key") }})
+	_, err := r.Resolve(context.Background(), src.Expression)
+	return err
 }
 
 // the errors host functions return: which error it is must not matter
@@ -306,6 +329,7 @@ const (
 	bCallOp
 	bCondOp
 	bBuiltin
+	bTypeofOp // `(typeof <call>)`: an operator around the call - a failing call still aborts the evaluation
 )
 
 type BNode struct {
@@ -354,6 +378,11 @@ func (n *BNode) text() string {
 		return s + ")"
 	case bCondOp:
 		return "(" + strconv.FormatBool(n.Cond) + " ? " + n.Kids[0].text() + " : " + n.Kids[1].text() + ")"
+	case bTypeofOp:
+		if n.Cond {
+			return "(typeof " + n.Kids[0].text() + " === 'number')"
+		}
+		return "(typeof " + n.Kids[0].text() + ")"
 	}
 	return "null"
 }
@@ -580,6 +609,11 @@ func (e *bEval) eval(n *BNode) (BV, int) {
 			return e.eval(n.Kids[0])
 		}
 		return e.eval(n.Kids[1])
+	case bTypeofOp: // what the operator yields is not this property's business; that the call happens or fails is
+		if _, st := e.eval(n.Kids[0]); st != stOK {
+			return BV{}, st
+		}
+		return BV{K: bUnknown}, stOK
 	case bCallOp:
 		f := n.Fn
 		if r, ok := e.remap[f]; ok {
@@ -908,6 +942,10 @@ func bridgeOnce(rc *RunCtx, wl, fl *Stream, primary bool) {
 			} else {
 				e = &BNode{Op: bCondOp, Cond: false, Kids: []*BNode{other, e}}
 			}
+		}
+		if wl.Intn(8) == 0 {
+			e = &BNode{Op: bTypeofOp, Cond: wl.Bool(1, 2), Kids: []*BNode{e}}
+			rc.probe("call_under_an_operator")
 		}
 		root.Kids = append(root.Kids, e)
 	}
